@@ -751,6 +751,19 @@ KEY_TYPES = [
 ]
 
 
+def named_pointer_conversion_repaired():
+    """Extracted fact: does the tree convert pointers through the identity-preserving `$pointerConversion` helper
+    (fixes/C15-named-pointer-conversion.patch)? The program tie mirrors the code that is there; whether the old
+    behaviour is acceptable is decided by the known-findings list alone."""
+    import os
+    try:
+        pre = open(os.path.join(C.REPO, "compiler", "prelude", "prelude.js")).read()
+        exp = open(os.path.join(C.REPO, "compiler", "expressions.go")).read()
+    except OSError:
+        return False
+    return "var $pointerConversion" in pre and "$pointerConversion(" in exp
+
+
 def gen_case(rng, pw, n, feat, tier):
     w = pw.w
     # key type
@@ -767,7 +780,7 @@ def gen_case(rng, pw, n, feat, tier):
         t = gen_type(rng, w, 3, None)
     named_key = rng.random() < 0.2 and t[0] != "N"
     if named_key:
-        if feat is None and t[0] == "P" and w.under(t[1])[0] != "T":
+        if feat is None and t[0] == "P" and w.under(t[1])[0] != "T" and not named_pointer_conversion_repaired():
             # `NK(p)` allocates a new pointer object on every conversion (recorded finding): the model gives every
             # universe slot its own object
             feat = "named-pointer-conversion"
@@ -1013,6 +1026,57 @@ def run_blank_witness(chk):
         chk.add_mismatch("programs", "c15blank (struct key with a blank field set by a positional literal)", js[0], nat[0], signature=sig)
 
 
+NP_SRC = r"""package main
+
+type NP *int
+type NP2 *int
+
+func main() {
+	p := new(int)
+	m := map[NP]int{}
+	m[NP(p)] = 1
+	m[NP(p)] = 2
+	println("np len", len(m), NP(p) == NP(p))
+	v, ok := m[NP(p)]
+	println("np lookup", v, ok)
+	delete(m, NP(p))
+	println("np delete", len(m))
+	println("np reverse", (*int)(NP(p)) == p, NP2(NP(p)) == NP2(p), NP((*int)(NP(p))) == NP(p))
+	var q *int
+	println("np nil", NP(q) == nil, NP(q) == NP(q))
+	mi := map[interface{}]int{}
+	mi[NP(p)] = 1
+	mi[NP(p)] = 2
+	mi[p] = 3
+	mi[NP2(p)] = 4
+	println("np iface", len(mi), mi[NP(p)], mi[p], mi[NP2(NP(p))])
+	*(NP(p)) = 7
+	println("np deref", *p, *(NP2(NP(p))))
+}
+"""
+
+NP_OLD = ["np len 2 false", "np lookup 0 false", "np delete 2"]      # what the unrepaired compiler prints for the first three lines
+
+
+def run_named_pointer_witness(chk):
+    """Fixed witness of the listed finding C15-prog-named-pointer-conversion, compiled and run in every run: a conversion
+    NP(p) to a named pointer type allocates a new pointer object, so converted pointers lose identity as map keys and for ==."""
+    res = progs.run_jobs([{"id": "c15np", "files": {"main.go": NP_SRC}, "variants": ["plain", "minify"], "native": True, "timeout": 600}])[0]
+    nat = progs.observe_native(res["runs"]["native"])
+    if nat[1] != "exit0":
+        raise RuntimeError("named-pointer witness does not run natively: %r" % (nat,))
+    for variant in ("plain", "minify"):
+        js = progs.observe_js(res["runs"][variant])
+        chk.add_case("programs", "c15np/" + variant, True, "prog-case:named-pointer-witness")
+        if js != nat:
+            sig = None
+            if js[1] == "exit0" and js[0][:3] == NP_OLD and nat[0][:3] == ["np len 1 true", "np lookup 2 true", "np delete 0"]:
+                sig = "C15 program keytype-feature=named-pointer-conversion gopherjs=model!=go"
+            d = [i for i in range(max(len(js[0]), len(nat[0]))) if i >= len(js[0]) or i >= len(nat[0]) or js[0][i] != nat[0][i]]
+            chk.add_mismatch("programs", "c15np/%s (type NP *int; m[NP(p)] = 1; m[NP(p)] = 2; NP(p) == NP(p))" % variant,
+                             [js[0][i] for i in d if i < len(js[0])] + [js[1]], [nat[0][i] for i in d if i < len(nat[0])] + [nat[1]], signature=sig)
+
+
 SKELETON_SRC = "package main\n\n" + "".join(
     "func f_%s(m map[string]int) int {\n\tn := 0\n\t%s {\n\t\t%s\n\t\tn++\n\t\tdelete(m, \"a\")\n\t\tdelete(m, \"b\")\n\t\tdelete(m, \"c\")\n\t}\n\treturn n\n}\n\n" % (f, h, u)
     for f, (h, u) in sorted(RANGE_FORMS.items())) + (
@@ -1048,7 +1112,9 @@ def run_range_skeleton(chk):
 
 
 def run_programs(chk, tier):
+    chk.extra["named_pointer_conversion_repaired"] = named_pointer_conversion_repaired()
     run_blank_witness(chk)
+    run_named_pointer_witness(chk)
     run_range_skeleton(chk)
     rng = chk.rng
     nprog = 30 if tier == "thorough" else 8
